@@ -144,6 +144,10 @@ def collect_generic(pid, prop, tier, seed, b):
     if have_drivers:
         impl, model = run_cases(prop, cases)
         failures, disagreements = evaluate(prop, cases, impl, model)
+        n_x, bad_x, msg_x = infra.incoq_crosscheck([c['line'] for c in cases], model, 60 if tier == 'quick' else 400)
+        prop.xcheck = dict(in_coq_cases=n_x, in_coq_mismatches=bad_x)
+        if bad_x != 0 and n_x:
+            prop.xproblem = ('extraction', msg_x or '%d of %d cases differ between vm_compute inside Coq and the extracted OCaml driver' % (bad_x, n_x))
         if prop.extra_lines:
             raw = getattr(prop, 'raw_oracle', False)
             ex_cases, ex_lines = [], []
@@ -190,6 +194,10 @@ def finish(pid, prop, tier, seed, t0, b, hyg, ps, cases, impl, failures, disagre
         problems.append(('proof', ps['msg']))
     for k, t in extra_cov.pop('problems', []):
         problems.append((k, t))
+    if getattr(prop, 'xproblem', None):
+        problems.append(prop.xproblem)
+    if getattr(prop, 'xcheck', None):
+        extra_cov['extraction_crosscheck'] = prop.xcheck
     # known findings
     findings = infra.load_findings()
     known_hits = collections.OrderedDict()
